@@ -96,10 +96,22 @@ template <class SC, class DC, bool Compatible> static void run_pair(Case const& 
                         break;
                     case AL_FILL:
                     {
-                        dst_value_t val = value_from<dst_value_t>(seed, 5);
-                        gil::fill_pixels(da, val);
-                        for (i64 y = 0; y < h; ++y) for (i64 x = 0; x < w; ++x) db(x, y) = val;
-                        compare_buffers(ia, ib, "fill_pixels");
+                        // the fill value has the destination's pixel type or the (compatible, possibly differently ordered / stored) source type
+                        using src_value_t = typename SC::image_t::value_type;
+                        if (seed & 1)
+                        {
+                            src_value_t val = value_from<src_value_t>(seed, 5);
+                            gil::fill_pixels(da, val);
+                            for (i64 y = 0; y < h; ++y) for (i64 x = 0; x < w; ++x) db(x, y) = val;
+                            compare_buffers(ia, ib, "fill_pixels (value of the source configuration's pixel type)");
+                        }
+                        else
+                        {
+                            dst_value_t val = value_from<dst_value_t>(seed, 5);
+                            gil::fill_pixels(da, val);
+                            for (i64 y = 0; y < h; ++y) for (i64 x = 0; x < w; ++x) db(x, y) = val;
+                            compare_buffers(ia, ib, "fill_pixels");
+                        }
                         break;
                     }
                     case AL_FOR_EACH:
